@@ -1267,9 +1267,12 @@ class SSHConnection(SSHPacketHandler, asyncio.Protocol):
 
         assert self._trusted_host_keys is not None
 
-        for key in trusted_host_keys:
-            self._trusted_host_keys.add(key)
+        # This can be called multiple times on a server when doing
+        # host-based auth, so only trust the entries from this lookup
 
+        self._trusted_host_keys = set(trusted_host_keys)
+
+        for key in trusted_host_keys:
             if key.algorithm not in self._trusted_host_key_algs:
                 self._trusted_host_key_algs.extend(key.sig_algorithms)
 
@@ -1277,8 +1280,9 @@ class SSHConnection(SSHPacketHandler, asyncio.Protocol):
         self._revoked_host_keys = set(revoked_host_keys)
 
         if self._x509_trusted_certs is not None:
-            self._x509_trusted_certs = list(self._x509_trusted_certs)
-            self._x509_trusted_certs.extend(trusted_x509_certs)
+            self._x509_trusted_certs = \
+                list(self._options.x509_trusted_certs) + \
+                list(trusted_x509_certs)
             self._x509_revoked_certs = set(revoked_x509_certs)
 
             self._x509_trusted_subjects = trusted_x509_subjects
